@@ -71,6 +71,20 @@ Theorem C12_after_current_discarded : forall (s : st) (t : N) (retain : Z) (inus
 Proof. exact after_current_discarded. Qed.
 Print Assumptions C12_after_current_discarded.
 
+(* the garbage collection does not depend on where the snap file comes from (store download or local file: InstallPath,
+   snap try): the discard-snap tasks of the change are the same for both sources, and for a refresh they are exactly
+   gc_revs, which has no source input — in particular one slot is reserved for ANY target that is not kept yet *)
+Theorem C12_gc_independent_of_source : forall (o : op) (s : st) (retain : Z) (inuse : N -> bool) (b : bool),
+  filter is_discard (tasks_for (with_source b o) s retain inuse) = filter is_discard (tasks_for o s retain inuse).
+Proof. exact gc_independent_of_source. Qed.
+Print Assumptions C12_gc_independent_of_source.
+
+Theorem C12_refresh_discards_are_gc : forall (o : op) (s : st) (retain : Z) (inuse : N -> bool),
+  okind o = ORefresh -> installed s = true ->
+  map snd (filter is_discard (tasks_for o s retain inuse)) = gc_revs s (orev o) retain inuse.
+Proof. exact refresh_discards_are_gc. Qed.
+Print Assumptions C12_refresh_discards_are_gc.
+
 (* the kept revisions after a completed refresh are the linked sequence minus the garbage-collected ones; hence the count *)
 Theorem C12_retain_bound : forall (s : st) (o : op) (retain : Z) (inuse : N -> bool),
   wf s -> okind o = ORefresh -> accepts o s = true -> (2 <= retain)%Z ->
